@@ -301,6 +301,10 @@ def worker_files(rec, shard, nshards, scratch, seed):
     for combo in itertools.product(cells, repeat=4):
         if hash(combo) % 9 == 0:
             jobs.append(("spreadsheet", combo))
+    # cells that hold blanks only, before cells whose issues carry offsets into the row string
+    for combo in itertools.product([" ", "  ", "(Red, Red)", "Blue, Blue", "Label/a$b"], repeat=3):
+        if any(not c.strip() for c in combo) and any(c.strip() for c in combo):
+            jobs.append(("spreadsheet", combo + ("Red",)))
     trees = c16.build_trees(False)
     for t in trees[::max(1, len(trees) // 24)]:
         jobs.append(("dataset", t))
